@@ -17,7 +17,7 @@ import (
 var trUnits = []*trUnit{
 	{pkg: "lib/common/date", mod: "Date", funcs: []string{
 		"Date", "StartOf", "EndOf", "Period.Clip", "Period.Contains", "Partition.Contains", "NewPartition",
-		"Partition.Size", "Partition.StartDates", "Partition.EndDates",
+		"Partition.Size", "Partition.StartDates", "Partition.EndDates", "Partition.Align",
 	}},
 }
 
@@ -212,18 +212,37 @@ func (t *trTranslator) translateFunc(f *trFunc) {
 	for i := 0; i < sig.Params().Len(); i++ {
 		addParam(sig.Params().At(i), f.decl.Pos())
 	}
-	for i := 0; i < sig.Results().Len(); i++ {
-		if sig.Results().At(i).Name() != "" {
+	// a method whose body is `return func(params) T { … }` is translated as the curried function (Partition.Align)
+	body := f.decl.Body.List
+	results := sig.Results()
+	if len(body) == 1 {
+		if ret, ok := body[0].(*ast.ReturnStmt); ok && len(ret.Results) == 1 {
+			if fl, ok := ret.Results[0].(*ast.FuncLit); ok {
+				fsig, ok := c.typeOf(fl).(*types.Signature)
+				if !ok {
+					trFail(fl.Pos(), "function literal without a signature")
+				}
+				for i := 0; i < fsig.Params().Len(); i++ {
+					addParam(fsig.Params().At(i), fl.Pos())
+				}
+				body = fl.Body.List
+				results = fsig.Results()
+			}
+		}
+	}
+	for i := 0; i < results.Len(); i++ {
+		if results.At(i).Name() != "" {
 			trFail(f.decl.Pos(), "named results are outside the subset")
 		}
 	}
+	c.nresults = results.Len()
 	// result type: the new values of the parameters assigned through, then the results
 	var rts []string
 	for _, m := range f.mutObjs {
 		rts = append(rts, c.leanType(m.Type(), f.decl.Pos()))
 	}
-	for i := 0; i < sig.Results().Len(); i++ {
-		rts = append(rts, c.leanType(sig.Results().At(i).Type(), f.decl.Pos()))
+	for i := 0; i < results.Len(); i++ {
+		rts = append(rts, c.leanType(results.At(i).Type(), f.decl.Pos()))
 	}
 	switch len(rts) {
 	case 0:
@@ -233,10 +252,8 @@ func (t *trTranslator) translateFunc(f *trFunc) {
 	default:
 		f.resType = "(" + strings.Join(rts, " × ") + ")"
 	}
-	// a method that directly returns a function literal is the curried function
-	body := f.decl.Body.List
 	end := func() trLines {
-		if sig.Results().Len() > 0 {
+		if results.Len() > 0 {
 			trFail(f.decl.End(), "internal: control reaches the end of a function with results")
 		}
 		return c.returnTerm(nil, f.decl.End())
